@@ -10,6 +10,7 @@
 (*               [exc, vok (result accepts it), sok (original accepts it), *)
 (*                rep, w (Some(value))]                                    *)
 (*   probes    [w, ok_r, ok_s]: real verdicts of result and original       *)
+(*   model     the case comes from the machine (FALSE: code -> spec only)    *)
 (*   again     second substitution: [exc, eq (real ==), ne (real !=)]      *)
 (* Prop selects the property whose clauses decide the verdict.             *)
 (***************************************************************************)
@@ -32,6 +33,8 @@ VerdictC12(e) ==
   ELSE IF e.exc # "" THEN "OK"
   ELSE IF \E j \in DOMAIN e.gens : e.gens[j].exc # "" /\ ~(e.rep /\ KnownGenSig(Get(e.r)))
        THEN "FAIL:result_cannot_be_generated_from:" \o SigAnyEmpty(e)
+  ELSE IF \E j \in DOMAIN e.gens : e.gens[j].exc = "" /\ ~e.gens[j].vok /\ ~(e.rep /\ KnownGenSig(Get(e.r)))
+       THEN "FAIL:result_rejects_a_value_generated_from_it:" \o SigAnyEmpty(e)
   ELSE IF e.rep /\ ~Sat(Get(e.r)) /\ (\A j \in DOMAIN e.gens : ~e.gens[j].vok)
           /\ (\A j \in DOMAIN e.probes : ~e.probes[j].ok_r)
        THEN "FAIL:result_accepts_nothing:" \o SigAnyEmpty(e)
@@ -66,7 +69,10 @@ VerdictC05(e) ==
 
 Verdict(e) == CASE Prop = "C04" -> VerdictC04(e) [] Prop = "C05" -> VerdictC05(e) [] Prop = "C12" -> VerdictC12(e)
 
+\* e.model = FALSE: the value lies outside the model's value domain (an instance of a subclass of
+\* a built-in scalar type); only the clauses about real observations apply
 Drift(e) ==
+  e.model /\
   LET m == Subst(e.s, e.v) IN
   \/ m.ok # (e.exc = "")
   \/ ~m.ok /\ m.exc # e.exc
